@@ -635,6 +635,12 @@ def apply_proj(tb, base, proj, stack, fn):
                 else:
                     nm = ups[idx]["name"] if idx < len(ups) else "up%d" % idx
                     t = ("upvar", nm.lstrip("*"))
+            elif isinstance(t, tuple) and t[0] == "bin" and t[1].endswith("WithOverflow"):
+                # (value, overflowed) pair of a checked arithmetic operation
+                if e["i"] == 0:
+                    t = ("bin", t[1][:-len("WithOverflow")], t[2], t[3])
+                else:
+                    t = ("overflowed", t)
             elif isinstance(t, tuple) and t[0] == "agg" and t[1] != "array":
                 nm = e.get("name") if "adt" in e else str(e["i"])
                 hit = [v for (fname, v) in t[2] if fname == nm]
